@@ -343,6 +343,25 @@ def witness_search(prop, repo, rundir, seed, timeout=600, quick=False):
     return res
 
 
+def canary_run(a, rundir):
+    """vacuity guard (DESIGN 3.6): weave with an `assert(false)` at the entry of every verified unit that has a
+    precondition; each of them must be reported as a failed assertion"""
+    os.environ["VERIF_CANARY"] = "1"
+    try:
+        woven = os.path.join(rundir, "woven-canary")
+        meta = weave_mod.weave(a.repo, woven)
+    finally:
+        os.environ.pop("VERIF_CANARY", None)
+    sm = SegMap(meta, a.repo)
+    cmd, out, so, se, wall = run_verus(woven, ["--num-threads", "16", "--multiple-errors", "50", "--rlimit", "60"])
+    diags, raw = parse_diags(se)
+    failures, undecided = classify(diags, raw, sm, os.path.join(woven, "src"))
+    want = {c["id"]: c["unit"] for c in meta["clauses"].values() if c["kind"] == "canary"}
+    got = {f["clause"] for f in failures if f.get("clause") in want}
+    return {"units_with_precondition": len(want), "canaries_failed_as_required": len(got),
+            "vacuous": sorted(want[c] for c in want if c not in got), "undecided": [u["reason"] for u in undecided][:3]}
+
+
 def function_results(out):
     res = {}
     if not out:
@@ -530,6 +549,24 @@ def decide(prop, tier, seed, a, rundir, woven, t0):
         else:
             print("VIOLATION property=%s replay=%s no-failing-input-found" % (prop, rp))
         return 1
+    canary = None
+    mutants = None
+    if tier == "thorough":
+        # mutant self-test (DESIGN 3.6): seeded changes on scratch copies must each fail an obligation of this property
+        if os.path.realpath(a.repo) == "/repo" and not os.environ.get("VERIF_NO_MUTANTS"):
+            mj = os.path.join(rundir, "mutants.json")
+            subprocess.run([sys.executable, os.path.join(HERE, "mutants.py"), "--props", prop, "-j", "8", "--json", mj],
+                           capture_output=True, text=True, env=dict(os.environ, VERIF_NO_MUTANTS="1", VERIF_TIER="quick"))
+            if os.path.exists(mj):
+                mutants = json.load(open(mj))
+                mutants["matrix"] = [x for x in mutants["matrix"] if x["property"] == prop]
+                for x in mutants["matrix"]:
+                    if x["result"] == "SURVIVED":
+                        print("WEAK-CONTRACT property=%s mutant=%s survived (reported, does not fail the run)" % (prop, x["mutant"]))
+        canary = canary_run(a, rundir)
+        if canary["vacuous"] and not canary["undecided"]:
+            print("UNDECIDED property=%s reason=vacuous-precondition units=%s" % (prop, ",".join(canary["vacuous"])))
+            return 2
     if prop in WITNESS_PROPS:
         # bounded differential check (labelled bounded, never counted as proved): always run, a thinned slice
         # of the families in the quick tier, the full families in the thorough tier
@@ -541,7 +578,7 @@ def decide(prop, tier, seed, a, rundir, woven, t0):
             print("VIOLATION property=%s replay=%s" % (prop, rp))
             return 1
         write_evidence(prop, tier, seed, info, meta, my_units, my_clauses, fres, my_fail, trusted, cmd, time.time() - t0, out,
-                       known=[k for _, k in kf], other=other_fail, witness=ws)
+                       known=[k for _, k in kf], other=other_fail, witness=ws, canary=canary, mutants=mutants)
     nfun = sum(1 for u in my_units.values() if u["mode"] == "V")
     print("OK property=%s units=%d clauses=%d verified_functions_total=%s wall=%.1fs" % (prop, nfun, len(my_clauses), vres.get("verified"), time.time() - t0))
     return 0
@@ -564,7 +601,7 @@ def write_replay(prop, viol, cmd, diags, ws, note=None):
 
 
 def write_evidence(prop, tier, seed, info, meta, my_units, my_clauses, fres, my_fail, trusted, cmd, wall, out, note=None,
-                   undecided=False, known=(), other=(), witness=None):
+                   undecided=False, known=(), other=(), witness=None, canary=None, mutants=None):
     failed_units = {f["unit"] for f in my_fail}
     failed_clauses = {f["clause"] for f in my_fail if f.get("clause")}
     vunits = [u for u in my_units.values() if u["mode"] == "V"]
@@ -612,6 +649,10 @@ def write_evidence(prop, tier, seed, info, meta, my_units, my_clauses, fres, my_
         "wall_s": round(wall, 2),
         "violations": len([f for f in my_fail]) - len(known),
     }
+    if canary is not None:
+        ev["coverage"]["vacuity_canaries"] = canary
+    if mutants is not None:
+        ev["coverage"]["mutant_self_test"] = mutants
     if witness is not None:
         ev["coverage"]["bounded_differential_check"] = {
             "label": "bounded (not counted in obligations/discharged): inputs of the generated families run through the real crate and compared with an executable restatement of the property",
